@@ -7,7 +7,7 @@ from collections import Counter
 import vlib
 from vlib import coq_bool, coq_list, coq_option
 
-HEADER = ('From Teleport Require Import Base.Bytes Base.Outcome Model.Bsc Model.BscCheck.\n'
+HEADER = ('From Coq Require Import Uint63.\nFrom Teleport Require Import Base.Bytes Base.Outcome Model.Bsc Model.BscCheck Model.BscLit.\n'
           'Local Open Scope N_scope.\n')
 SHARD = 5    # chains per Coq file
 
@@ -38,6 +38,8 @@ KINDS = {
     42: 'accepted sealer sealed one of the last floor(N/2) blocks: its recent-signer entry was deleted with a pruned consensus state',
 }
 KEYS = {41: 'recents-wrap:number<limit', 42: 'recents-deleted-by-trusting-period-pruning'}
+GAS_KEY = 'gas-bound-int64-cast:parent-gaslimit>=2^63'
+
 
 
 class Intern:
@@ -58,7 +60,10 @@ class Intern:
             if len(raw) >= 8 and raw == bytes(len(raw)):
                 self.defs.append('Definition %s : bytes := zeros %d.' % (n, len(raw)))
             else:
-                self.defs.append('Definition %s : bytes := unhex "%s".' % (n, hexs))
+                words = []
+                for i in range(0, len(raw), 7):
+                    words.append('0x%s%%uint63' % raw[i:i + 7].ljust(7, b'\0').hex())
+                self.defs.append('Definition %s : bytes := unpack %d [%s].' % (n, len(raw), ';'.join(words)))
         return n
 
     def term(self, typ, text):
@@ -197,7 +202,15 @@ def shrink(workdir, spec, obs, step, kind):
     return best
 
 
-def signature(kind, spec):
+def signature(kind, spec, obs=None, step=0):
+    """canonical key of a monitor failure (the keys of KNOWN_FINDINGS.txt)"""
+    if kind == 22 and obs is not None and step >= 1:
+        head = spec['genesis']
+        for st, o in zip(spec['steps'][:step - 1], obs[:step - 1]):
+            if o['class'] == 0:
+                head = st['h']
+        if int(head['gaslimit']) >= 2 ** 63:
+            return GAS_KEY
     return KEYS.get(kind, 'kind-%d' % kind)
 
 
@@ -258,7 +271,7 @@ def report(run, results, mm, ff):
         if (h, k) in reported:
             continue
         reported.add((h, k))
-        key = signature(k, results[h]['spec'])
+        key = signature(k, results[h]['spec'], results[h]['obs'], s)
         if run.known_finding(key, 'key=%s %s' % (key, KINDS.get(k))):
             continue
         if sum(1 for v in run.violations) >= 3:
@@ -307,11 +320,30 @@ def check(run):
         run.violation(dict(kind='coq-evaluation-failed', log=ff), no_input=True)
         return run.finish()
     coverage(run, results, mm, ff, tags)
+    if mm and not ff:
+        # model and code disagree but the property monitor is silent: search harder for an input on which the real
+        # code violates the property itself (3x budget, other seeds), before falling back to the correspondence report
+        for extra_seed in (run.seed + 1000, run.seed + 2000):
+            outp2 = os.path.join(run.work, 'search_%d.jsonl' % extra_seed)
+            rc, o = vlib.run_harness('c09', ['-seed', extra_seed, '-n', 3 * run.budget(70, 200) // 2, '-steps', 80, '-out', outp2])
+            if rc != 0:
+                break
+            res2 = vlib.read_jsonl(outp2)
+            mm2, ff2 = evaluate(run.work, res2, 'search')
+            run.coverage['search_evaluations'] = run.coverage.get('search_evaluations', 0) + sum(len(r['obs']) for r in res2)
+            if mm2 is not None and ff2:
+                results, mm, ff = res2, mm2, ff2
+                break
     report(run, results, mm, ff)
-    if not run.violations and mm:
-        pass
     if not run.violations and not run.proof_ok():
         run.proof_violation()
+    if not run.quick() and not run.violations:
+        # independent re-check of the compiled proofs by coqchk
+        rc, o = vlib.sh('coqchk -silent -Q theories Teleport Teleport.Props.C09 Teleport.Refuted.C09_refuted', cwd=vlib.COQ,
+                        timeout=1500)
+        run.coverage['coqchk'] = 'ok' if rc == 0 else 'FAILED: ' + o[-500:]
+        if rc != 0:
+            run.violation(dict(kind='coqchk-failed', log=o[-2000:]), no_input=True)
     return run.finish()
 
 
